@@ -220,3 +220,11 @@ impl Compressor {
         transmute!(self.cv)
     }
 }
+
+/// Verification hook (off unless built with `--cfg cryptocorrosion_verif`): uninterpreted-function
+/// stubs and re-exports of this module's private F8 building blocks. Add-only.
+#[cfg(cryptocorrosion_verif)]
+#[doc(hidden)]
+pub mod verif_incrate {
+    include!(concat!(env!("CRYPTOCORROSION_VERIF_DIR"), "/incrate/jh_compressor.rs"));
+}
